@@ -37,6 +37,7 @@ From SB3V Require Import Model.Script Model.OnPolicyCollect Model.OffPolicyColle
 Import ListNotations.
 """
 
+STOP_SIG = "callback-stop-loses-transition-then-stale-last-obs"
 NOISE_LOG = []  # global on purpose: VectorizedActionNoise deep-copies its base noise
 
 
@@ -53,6 +54,13 @@ def gen_case(rng, i):
     her = i % 11 == 7
     if her:
         obs = "goal"
+    if i % 13 == 9:
+        # a callback asks to stop at some step of the first learn(); training is then continued without counter reset
+        calls = [{"total": rng.randint(6, 20), "reset": True}, {"total": rng.randint(3, 12), "reset": False}]
+        return {"id": i, "stop": {"call": 0, "step": rng.randint(1, 5)}, "buffer_size": 120, "her": False, "sde_freq": -1, "algo": algo, "n_envs": n_envs,
+                "tf": ["step", rng.randint(1, 4)], "obs": rng.choice(["box1", "box2", "disc"]), "act": "discrete" if algo == "DQN" else "box_asym", "noise": None, "sde": False,
+                "sde_warmup": False, "learning_starts": rng.choice([0, 1000]), "vecnorm": False, "calls": calls, "seed": rng.randint(0, 10**6),
+                "scripts": [se.gen_script(rng, max_len=5, tag_base=1000 * e, p_both=0.2, p_trunc=0.4) for e in range(n_envs)]}
     return {"id": i, "buffer_size": 120 if her else rng.choice([120, 120, rng.randint(2, 30)]), "her": her, "sde_freq": rng.choice([-1, 1, 2, 3]), "algo": algo, "n_envs": n_envs, "tf": tf, "obs": obs,
             "act": "discrete" if algo == "DQN" else rng.choice(["box", "box_asym", "box_asym"]),
             "noise": None if algo == "DQN" else rng.choice([None, "normal", "normal", "vec"]),
@@ -220,8 +228,18 @@ def run_impl(case):
 
     rollout_starts, sde_resets, in_train = [], [], [False]
 
+    stops = []
+
     class Marks(BaseCallback):
+        def __init__(self, stop_at=None):
+            super().__init__()
+            self.stop_at, self.k = stop_at, 0
+
         def _on_step(self):
+            self.k += 1
+            if self.stop_at is not None and self.k == self.stop_at:
+                stops.append(len(steps) - 1)      # index of the env step whose callback returns False
+                return False
             return True
 
         def _on_rollout_start(self):
@@ -247,7 +265,9 @@ def run_impl(case):
     call_info = []
     for c in case["calls"]:
         call_info.append({"steps_before": len(steps), "noise_log_before": len(NOISE_LOG)})
-        model.learn(total_timesteps=c["total"], reset_num_timesteps=c["reset"], callback=Marks())
+        st_cfg = case.get("stop") or {}
+        model.learn(total_timesteps=c["total"], reset_num_timesteps=c["reset"],
+                    callback=Marks(st_cfg.get("step") if st_cfg.get("call") == len(call_info) - 1 else None))
         call_info[-1].update(steps_after=len(steps), nt_end=int(model.num_timesteps))
     # everything sample() can return after learn(): every valid slot x every env column (the env index drawn inside _get_samples is forced)
     samples = None
@@ -309,7 +329,7 @@ def run_impl(case):
     return {"steps": steps, "adds": adds, "calls": call_info, "gt": [base.envs[e].gt for e in range(ne)], "space": sp, "buffer": buf,
             "noise_events": ["".join(ev) for ev in noise_events], "rollout_starts": rollout_starts, "sde_resets": sde_resets,
             "use_sde": bool(getattr(model, "use_sde", False)), "her_infos": her_infos, "samples": samples, "capacity": int(rb.buffer_size),
-            "dict_buffer": isinstance(rb.observations, dict)}
+            "dict_buffer": isinstance(rb.observations, dict), "stops": stops}
 
 
 def _worker(case):
@@ -460,6 +480,67 @@ def oracle(case, impl):
     return probs
 
 
+def oracle_stop(case, impl):
+    """runs in which a callback returned False: the env-side log is still the oracle"""
+    from harness.c06 import ground_truth
+
+    probs = []
+    ne = case["n_envs"]
+    gt = ground_truth(case, impl)
+    adds, stops = impl["adds"], set(impl["stops"])
+    nsteps = len(impl["steps"])
+    amap = [g for g in range(nsteps) if g not in stops]
+    resumed = {g + 1 for g in stops}                    # env steps taken right after a stopped one (in the continued learn())
+    if any(len(col) != nsteps for col in gt):
+        probs.append(("oracle-add-count", f"envs made {[len(c) for c in gt]} steps, {nsteps} actions were sampled"))
+    for g in sorted(stops):
+        probs.append((STOP_SIG, f"env step {g} (callback.on_step() returned False there) was taken by the envs "
+                                f"({[(gt[e][g]['saw'], gt[e][g]['tag']) for e in range(ne) if g < len(gt[e])]}) but never stored in the replay buffer"))
+    if len(adds) != len(amap):
+        probs.append(("oracle-add-count", f"{len(adds)} adds for {nsteps} env steps of which {len(stops)} were stopped"))
+    for j, ad in enumerate(adds[:len(amap)]):
+        g = amap[j]
+        for e in range(ne):
+            if g >= len(gt[e]):
+                continue
+            s = gt[e][g]
+            bad = []
+            if ad["obs"][e] != s["saw"]:
+                bad.append(f"stored observation {ad['obs'][e]}, the env showed {s['saw']} before that step")
+            if ad["next"][e] != s["tag"]:
+                bad.append(f"stored next observation {ad['next'][e]}, true successor {s['tag']}")
+            if abs(ad["reward"][e] - s["r"]) > 1e-6 or ad["done"][e] != s["done"] or ad["timeout"][e] != (s["trunc"] and not s["term"]):
+                bad.append("reward / done / timeout differ from the env's")
+            if bad:
+                sig = STOP_SIG if g in resumed and not case["calls"][-1]["reset"] else "oracle-stop-run-transition"
+                probs.append((sig, f"add {j} env {e} (env step {g}, the first one after the stop request; learn() continued with reset_num_timesteps=False): " + "; ".join(bad)
+                              if sig == STOP_SIG else f"add {j} env {e} (env step {g}): " + "; ".join(bad)))
+    return probs
+
+
+def stop_exprs(case, impl):
+    from harness import scripted_envs as se
+
+    lo = impl["space"].get("low")
+    ak = f"(ABox {coq_list(lo, fq)} {coq_list(impl['space']['high'], fq)})" if lo is not None else "ADisc"
+    stops = set(impl["stops"])
+    ex = []
+    for e in range(case["n_envs"]):
+        orcs = [f"(mkO {coq_list(st['u'][e], fq)} None, {coq_bool(g in stops)})" for g, st in enumerate(impl["steps"])]
+        ex.append(f"show_collect_s {ak} {se.coq_script(case['scripts'][e])} true {coq_list(orcs)}")
+    return ex
+
+
+def compare_stop(case, impl, vals):
+    probs = []
+    for e in range(case["n_envs"]):
+        got = [(ad["obs"][e], ad["next"][e], int(round(ad["reward"][e] * 4)), ad["done"][e], ad["timeout"][e]) for ad in impl["adds"]]
+        if got != [tuple(x) for x in vals[e]]:
+            j = next((q for q in range(min(len(got), len(vals[e]))) if got[q] != tuple(vals[e][q])), min(len(got), len(vals[e])))
+            probs.append(("stop-log", f"env {e}: adds differ from Model.OffPolicyCollect.off_collect_s at add {j}: impl {got[j:j + 2]} model {vals[e][j:j + 2]}"))
+    return probs
+
+
 # ---------------------------------------------------------------- model
 
 def fq(x):
@@ -591,11 +672,14 @@ def run_cases(chk, cases, procs=4):
         if c.get("vecnorm"):
             results[i] = oracle(c, im)
             continue
-        ex = model_exprs(c, im)
+        ex = stop_exprs(c, im) if c.get("stop") else model_exprs(c, im)
         spans[i] = (len(exprs), len(exprs) + len(ex))
         exprs += ex
     vals = common.coq_eval_many(chk.pid, HEADER, exprs, shard=30, procs=4) if exprs else []
     for i, (a, b) in spans.items():
+        if cases[i].get("stop"):
+            results[i] = oracle_stop(cases[i], impls[i]) + [("model-correspondence-" + s, m) for s, m in compare_stop(cases[i], impls[i], vals[a:b])]
+            continue
         results[i] = oracle(cases[i], impls[i]) + [("model-correspondence-" + s, m) for s, m in compare(cases[i], impls[i], vals[a:b])]
     return impls, results
 
@@ -637,7 +721,12 @@ def main():
                 hist["warmup_and_policy_runs"] += 1
             if nontrivial(c, im):
                 distinct.add(json.dumps({k: c[k] for k in c if k != "id"}, sort_keys=True))
-        if probs and len([v for v in chk.violations if v["signature"] != "vecnormalize-terminal-obs-clipped"]) < 3:
+        KNOWN_SIGS = ("vecnormalize-terminal-obs-clipped", STOP_SIG)
+        for ks in KNOWN_SIGS:          # findings are reported under their own signature, separately from anything else in the same case
+            if any(sg == ks for sg, _ in probs) and not any(v["signature"] == ks for v in chk.violations):
+                chk.violation(ks, "; ".join(m for sg, m in probs if sg == ks)[:700], {"case": c, "problems": [q for q in probs if q[0] == ks][:6]}, found_input=True)
+        probs = [q for q in probs if q[0] not in KNOWN_SIGS]
+        if probs and len([v for v in chk.violations if v["signature"] not in KNOWN_SIGS]) < 3:
             oracle_bad = [s for s, _ in probs if not s.startswith("model-correspondence-") and s != "impl-exception"]
             sig = oracle_bad[0] if oracle_bad else probs[0][0]
             chk.violation(sig, "; ".join(m for s, m in probs if s == sig)[:700],
